@@ -173,3 +173,99 @@ Theorem to_pyzx_sound_starring :
     = zx_sem (SoundStarRing.ringops_of SR e c) dom bs i o.
 Proof. exact SoundStarRing.to_pyzx_sound_starring. Qed.
 Print Assumptions to_pyzx_sound_starring.
+
+(* ------------------------------------------------------------------ import soundness, in general
+   (PyZX/GraphIso.v, ImportSim.v, ImportEdges.v, PyZXImport.v, ImportCyc8.v), for the code as
+   it is now: from_pyzx true true (both repairs of F15 in place).  graph_wf = the decidable
+   well-formedness that ZXSem.graph_in_scope forgot (distinct vertex ids, distinct inputs,
+   distinct outputs, boundaries and edge end points are vertices); import_laws = export_laws
+   plus "rexp respects Qeq". *)
+Require Import DV.PyZX.GraphIso DV.PyZX.ImportSim DV.PyZX.ImportEdges DV.PyZX.PyZXImport DV.PyZX.ImportCyc8.
+
+(* ZXSem.from_pyzx_sound_stmt true true, for well-formed graphs *)
+Theorem from_pyzx_sound : forall K, import_laws K -> forall g d,
+  graph_wf g -> graph_in_scope g = true -> from_pyzx true true g = Ok d ->
+  forall i o, length i = length (gins g) -> length o = length (gouts g) ->
+    req K (rmul K (rcplx K (fst (gscal g)) (snd (gscal g))) (core_sem K d i o)) (graph_sem K g i o).
+Proof. exact PyZXImport.from_pyzx_sound. Qed.
+Print Assumptions from_pyzx_sound.
+
+Theorem from_pyzx_sound_ring_laws : forall K, ring_laws K -> cplx_proper K -> forall g d,
+  graph_wf g -> graph_in_scope g = true -> from_pyzx true true g = Ok d ->
+  forall i o, length i = length (gins g) -> length o = length (gouts g) ->
+    req K (rmul K (rcplx K (fst (gscal g)) (snd (gscal g))) (core_sem K d i o)) (graph_sem K g i o).
+Proof. exact PyZXImport.from_pyzx_sound_ring_laws. Qed.
+Print Assumptions from_pyzx_sound_ring_laws.
+
+(* how it is proved: to_pyzx accepts the imported diagram (and rebuilds the graph up to
+   the order / orientation of the edges and the order / names of the vertices) *)
+Theorem import_then_export_accepts : forall g d,
+  graph_wf g -> graph_in_scope g = true -> from_pyzx true true g = Ok d ->
+  zx_typed (length (gins g)) (bl d) (length (gouts g)) /\
+  exists g', to_pyzx (length (gins g)) (length (gouts g)) (bl d) = Ok g'.
+Proof.
+  intros g d Hwf Hsc H. destruct (PyZXImport.import_export g d Hwf Hsc H) as (g' & H1 & H2 & _).
+  split; [exact H2|exists g'; exact H1].
+Qed.
+Print Assumptions import_then_export_accepts.
+
+(* the handshake identity of ZXSem.from_pyzx_total_stmt (double counting), hence the arity *)
+Theorem graph_balanced_in_scope : forall g,
+  graph_wf g -> graph_in_scope g = true -> graph_balanced g = true.
+Proof. exact PyZXImport.graph_balanced_in_scope. Qed.
+Print Assumptions graph_balanced_in_scope.
+
+Theorem from_pyzx_arity_in_scope : forall fa fb g d,
+  graph_wf g -> graph_in_scope g = true -> from_pyzx fa fb g = Ok d ->
+  ddom d = pro (length (gins g)) /\ dcod d = pro (length (gouts g)).
+Proof. exact PyZXImport.from_pyzx_arity_in_scope. Qed.
+Print Assumptions from_pyzx_arity_in_scope.
+
+(* round trip: export then import gives a diagram with the same matrix *)
+Theorem round_trip_sound : forall K, import_laws K -> forall dom cod bs g d,
+  zx_typed dom bs cod -> to_pyzx dom cod bs = Ok g ->
+  graph_wf g -> graph_in_scope g = true -> from_pyzx true true g = Ok d ->
+  forall i o, length i = dom -> length o = cod ->
+    req K (rmul K (rcplx K (fst (gscal g)) (snd (gscal g))) (core_sem K d i o)) (zx_sem K dom bs i o).
+Proof. exact PyZXImport.round_trip_sound. Qed.
+Print Assumptions round_trip_sound.
+
+(* Cyc8 is a model of import_laws: the executable semantics agree on every such graph *)
+Theorem from_pyzx_sound_cyc8 : forall g d,
+  graph_wf g -> graph_in_scope g = true -> from_pyzx true true g = Ok d ->
+  forall i o, length i = length (gins g) -> length o = length (gouts g) ->
+    c8_eqb (c8_mul (rcplx Cyc8 (fst (gscal g)) (snd (gscal g))) (core_sem Cyc8 d i o))
+           (graph_sem Cyc8 g i o) = true.
+Proof. exact ImportCyc8.from_pyzx_sound_cyc8. Qed.
+Print Assumptions from_pyzx_sound_cyc8.
+
+(* graph_wf is needed: a graph in scope whose boundaries are not vertices *)
+Theorem from_pyzx_sound_needs_wf :
+  graph_in_scope g_nowf = true /\
+  exists d, from_pyzx true true g_nowf = Ok d /\
+    ~ req Cyc8 (rmul Cyc8 (rcplx Cyc8 (fst (gscal g_nowf)) (snd (gscal g_nowf)))
+                  (core_sem Cyc8 d [false] [true]))
+               (graph_sem Cyc8 g_nowf [false] [true]).
+Proof. exact ImportCyc8.from_pyzx_sound_needs_wf. Qed.
+Print Assumptions from_pyzx_sound_needs_wf.
+
+(* ZXSem.from_pyzx_total_stmt as stated is false (vertex list not in increasing order) *)
+Theorem from_pyzx_total_stmt_refuted : forall fa fb, ~ from_pyzx_total_stmt fa fb.
+Proof. exact ImportCyc8.from_pyzx_total_stmt_refuted. Qed.
+Print Assumptions from_pyzx_total_stmt_refuted.
+
+(* TOTALITY, corrected form of ZXSem.from_pyzx_total_stmt (PyZX/ImportTotal.v): a well-formed
+   graph in scope whose vertex list is sorted by id is never refused, and is balanced *)
+Require Import Coq.Sorting.Sorted DV.PyZX.ImportTotal.
+Theorem from_pyzx_total : forall g,
+  graph_wf g -> graph_in_scope g = true -> StronglySorted lt (map vid (gverts g)) ->
+  graph_balanced g = true /\ exists d, from_pyzx true true g = Ok d.
+Proof. exact ImportTotal.from_pyzx_total. Qed.
+Print Assumptions from_pyzx_total.
+
+(* the same with the decidable hypotheses that the runner / harness can evaluate *)
+Theorem from_pyzx_total_dec : forall g,
+  graph_wfb g = true -> sortedb (map vid (gverts g)) = true -> graph_in_scope g = true ->
+  graph_balanced g = true /\ exists d, from_pyzx true true g = Ok d.
+Proof. exact ImportCyc8.from_pyzx_total_dec. Qed.
+Print Assumptions from_pyzx_total_dec.
